@@ -15,19 +15,32 @@ def check_hash(cx, qual, inst, prefix, mid):
     P = Prov(fn, cx.F); cn = Canon(fn, P)
     hs = FR.calls_of(fn, 'gm_sm3::sm3_hash')
     cx.floor('F-' + inst, 'hash-sites', len(hs), 2, 'SM3 invocations in %s' % inst)
+    mid = [x.replace('array{$hid}', 'byte($hid)') for x in mid]
     want1 = ['byte(%d)' % prefix] + mid + ['bytes:00000001']
     want2 = ['byte(%d)' % prefix] + mid + ['bytes:00000002']
-    got = [preimage(fn, P, b, 0, cn)[0] for b in hs]
+    import re as _re
+    def named(t_):
+        # a byte given by a named constant of the workspace is shown by its value
+        def sub(m):
+            its = [it for it in cx.F.items_by_suffix(m.group(1)) if it['name'].startswith('gm_sm9::')]
+            v = K.item_int(its[0]) if len(its) == 1 else None
+            return 'byte(%d)' % v if v is not None and 0 <= v < 256 else m.group(0)
+        # (a one-byte array literal `[hid]` and a pushed byte are the same element)
+        t_ = _re.sub(r'array\{(\$\w+)\}', r'byte(\1)', t_)
+        return _re.sub(r'byte\(([A-Z][A-Z0-9_]*)\)', sub, t_)
+    got = [[named(x) for x in (preimage(fn, P, b, 0, cn)[0] or [])] for b in hs]
     cx.add('F-' + inst, 'block1', want1 in got, 'Ha1 = SM3(0x%02x || Z || 00000001): %s' % (prefix, got), fn.loc())
     cx.add('F-' + inst, 'block2', want2 in got, 'Ha2 = SM3(0x%02x || Z || 00000002)' % prefix, fn.loc())
     mh = FR.calls_of(fn, 'fields::mod_n_from_hash')
     ok = False
     if len(mh) == 1:
         seq, _ = preimage(fn, P, mh[0], 0, cn)
+        seq = [named(x) for x in seq] if seq else seq
         ok = seq == ['sm3_hash([%s])' % ', '.join(want1), 'sm3_hash([%s])' % ', '.join(want2)]
     cx.add('F-' + inst, 'concat', ok, 'Ha = Ha1 || Ha2 (64 bytes) is handed to mod_n_from_hash', fn.loc())
-    rets = [(b, i, st) for b, i, st in fn.stmts() if st['k'] == 'assign' and st['lhs']['l'] == 0 and not st['lhs']['p']]
-    ok = len(rets) == 1 and cn.c(norm(P.rvalue(rets[0][2]['rv'], rets[0][0], rets[0][1], 0))).startswith('mod_n_from_hash(')
+    from .. import rules_i as _I2
+    rets = [v for _, v in _I2.returns(fn, cx.F)]       # through tail calls and whole-value moves as well
+    ok = len(rets) == 1 and rets[0].startswith('mod_n_from_hash(')
     cx.add('F-' + inst, 'ret', ok, '%s returns the value of mod_n_from_hash unchanged' % inst, fn.loc())
 
 
